@@ -1,7 +1,7 @@
 //! C20: drives `Shell::{add_to_history,save_history}`, new sessions on one HISTFILE and
 //! the `history -d/-c` builtin; prints the observable state after every op in the same
 //! format as the model's `show_world`.
-//! Case fields: <nlines> line* then ops: A sid now cmd | S sid | X sid | N | D sid off | C sid | T
+//! Case fields: <nlines> line* then ops: A sid now cmd | S sid | X sid | W sid | N | D sid off | C sid | T
 //! (`now` is ignored by the code: the clock is real; the observed stamp is printed.)
 use crate::util::{hex, unhex_str};
 use brush_builtins::ShellBuilderExt;
@@ -147,6 +147,14 @@ fn main_hist(cases: &[Vec<String>]) {
                                 let _ = s.run_string(format!("history -d {off}"), &si, &params).await;
                             }
                             i += 3;
+                        }
+                        "W" => {
+                            if let Some(s) = sessions.get_mut(sid(i + 1)) {
+                                let params = s.default_exec_params();
+                                let si = brush_core::SourceInfo::from("verif");
+                                let _ = s.run_string("history -w".to_string(), &si, &params).await;
+                            }
+                            i += 2;
                         }
                         "C" => {
                             if let Some(s) = sessions.get_mut(sid(i + 1)) {
